@@ -23,7 +23,7 @@ Definition check_get_paths_pure (decos params reads writes other free scope : li
   && Nat.eqb (List.length params) 2
   && subset_s reads ["current_directory"; "user"; "user.base_path"]
   && nil_b writes && nil_b other
-  && subset_s free ["pathlib"]
+  && subset_s free ["pathlib"; "logger"]
   && nil_b scope.
 
 Definition transfer_workers : list string := ["list_worker"; "mlsd_worker"; "retr_worker"; "stor_worker"].
@@ -50,3 +50,41 @@ Definition check_worker_paths (wp : list wp_t) (hr : list hr_t) : bool :=
                     | Some (o, (free, (calls, _))) => free && negb calls && owner_ok hr o
                     | None => false
                     end) transfer_workers.
+
+(* Server.user() drops what the previous login left on the connection: `user`, `logged` and a pending rename
+   source are deleted, the working directory is set anew (C02: no path of a previous login survives a re-login) *)
+Definition user_drops_rename_source (hs : list handler) : bool :=
+  match find_handler "user" hs with
+  | Some h => mem_s "rename_from" (h_conn_dels h) && mem_s "user" (h_conn_dels h)
+              && mem_s "current_directory" (h_conn_sets h)
+  | None => false
+  end.
+
+(* the permission decision and the handler's own resolution of `rest` are not separated by anything that can
+   suspend: PathPermissions is the INNERMOST decorator of every handler that carries it (PathConditions, which awaits
+   the backend, and ConnectionConditions come before it), and the body of every method that calls get_paths starts
+   with that call.  (User.get_permissions is a coroutine without a suspension point: Gen/UserMgr-style fact of C10;
+   custom users are outside.)  Otherwise a pipelined CWD can run between the check and the use. *)
+Definition is_pathperm (d : deco) : bool := match d with DPathPerm _ => true | _ => false end.
+
+Definition perm_innermost (h : handler) : bool :=
+  match rev (h_decos h) with
+  | [] => true
+  | d :: before => is_pathperm d && negb (existsb is_pathperm before)
+                   || negb (existsb is_pathperm (d :: before))
+  end.
+
+Definition check_check_use_atomic (hs : list handler) (first : list (string * bool)) : bool :=
+  forallb perm_innermost hs
+  && forallb (fun h => negb (h_get_paths h) || match assoc_s (h_name h) first with Some b => b | None => false end) hs
+  && forallb (fun nb => snd nb) first.
+
+(* the PathPermissions wrapper asks the CURRENT user for the entry on every call: the object whose flag it tests is bound
+   once, by `await connection.user.get_permissions(virtual_path)`; of the connection it reads nothing but that and
+   `response`, stores nothing; the only other uses of `connection` are passing it on to get_paths and to the wrapped
+   handler (no per-connection memo of earlier look-ups) *)
+Definition check_pathperm_lookup (reads writes other : list string) (direct : bool) : bool :=
+  direct
+  && subset_s reads ["user.get_permissions"; "user"; "response"]
+  && nil_b writes
+  && subset_s other ["cls.get_paths(connection, rest)"; "f(cls, connection, rest, *args)"].
